@@ -1074,6 +1074,7 @@ func (l *lexer) scanComment() bool {
 			// a comment inside backquotes ends at the closing backquote
 			l.unread()
 			l.comment(true)
+			l.mark(0)
 			return true
 		}
 		l.b.WriteRune(r)
@@ -1683,6 +1684,7 @@ func (l *lexer) linebreak() bool {
 				// a comment inside backquotes ends at the closing backquote
 				l.unread()
 				l.comment(hash)
+				l.mark(0)
 				return true
 			}
 			fallthrough
